@@ -114,3 +114,54 @@ def never_call(*args, **kwargs) -> typing.NoReturn:
 
 def ast_debug_info(node: stmt | expr):
     return f"At line {node.lineno}, col {node.col_offset}: "
+
+
+def mangle_private_names(root: AST) -> None:
+    """
+    Spell the private names of class bodies (`__name`) the way the compiler
+    and the symbol tables do (`_Class__name`), in place.
+
+    The original name of a function or class statement is kept in `_ol_name`:
+    symbol table blocks and `__name__` use it.
+    """
+
+    def mangle(private: str | None, name: str) -> str:
+        if private is None or not name.startswith("__"):
+            return name
+        if name.endswith("__") or "." in name:
+            return name
+        private = private.lstrip("_")
+        return f"_{private}{name}" if private else name
+
+    # not recursive: an expression can be thousands of levels deep
+    stack: list[tuple[AST, str | None]] = [(root, None)]
+    while stack:
+        node, private = stack.pop()
+        if isinstance(node, ClassDef):
+            node._ol_name = node.name  # type: ignore
+            # the header belongs to the enclosing scope, the body to the class
+            stack.extend((child, node.name) for child in node.body)
+            stack.extend(
+                (child, private)
+                for child in [*node.decorator_list, *node.bases, *node.keywords]
+            )
+            node.name = mangle(private, node.name)
+            continue
+        if isinstance(node, (FunctionDef, AsyncFunctionDef)):
+            node._ol_name = node.name  # type: ignore
+            node.name = mangle(private, node.name)
+        elif isinstance(node, Name):
+            node.id = mangle(private, node.id)
+        elif isinstance(node, Attribute):
+            node.attr = mangle(private, node.attr)
+        elif isinstance(node, arg):
+            node.arg = mangle(private, node.arg)
+        elif isinstance(node, (Global, Nonlocal)):
+            node.names = [mangle(private, name) for name in node.names]
+        elif isinstance(node, (Import, ImportFrom)):
+            for _alias in node.names:
+                bound = _alias.asname or _alias.name
+                if mangle(private, bound) != bound:
+                    _alias.asname = mangle(private, bound)
+        stack.extend((child, private) for child in iter_child_nodes(node))
+
